@@ -25,6 +25,8 @@ def tasks(tier, seed):
         V = families.select(V, 110, seed) + families.corpus(["lorentz.ode", "beeler_reuter_1977.ode"])
     else:
         V = V + families.corpus()
+    from .. import gen
+    V = V + gen.programs(tier, seed, 120, 1500, "std") + gen.programs(tier, seed, 60, 600, "full")
     out = [dict(p, opts={}) for p in V]
     out.append({"family": "SPLIT", "id": text_id(SPLIT), "text": SPLIT, "opts": {"split": "A"}})
     out.append({"family": "SPLIT", "id": text_id(SPLIT + "B"), "text": SPLIT, "opts": {"split": "B"}})
